@@ -8,6 +8,7 @@ mod front;
 mod ir;
 mod lintser;
 mod locs;
+mod vtpred;
 mod mutser;
 mod shape;
 mod showser;
@@ -34,6 +35,7 @@ fn main()
 		"delta-total" => delta::total_stream(&args[2]),
 		"diag" => diag::stream(&args[2]),
 		"loc" => locs::stream(&args[2]),
+		"vtpred" => vtpred::stream(&args[2]),
 		"expand" => expand::stream(&args[2]),
 		"exec" => exec::stream(&args[2], true, false, false),
 		"exec-tools" => exec::stream(&args[2], true, true, false),
